@@ -380,8 +380,8 @@ func TestThorough(t *testing.T) {
 	if shard, _ := evid.Shard(); shard == 0 {
 		fix.Pinned(t, prop, replay)
 	}
-	fix.Check(t, "bind", 20000, func(rt *rapid.T) { run(rt, drawCase(rt)) })
-	fix.Check(t, "collide", 4000, func(rt *rapid.T) { run(rt, drawCollisionCase(rt)) })
+	fix.Check(t, "bind", 60000, func(rt *rapid.T) { run(rt, drawCase(rt)) })
+	fix.Check(t, "collide", 10000, func(rt *rapid.T) { run(rt, drawCollisionCase(rt)) })
 }
 
 func TestReplay(t *testing.T) {
